@@ -353,6 +353,20 @@ int eval_expression(AsmContext *asm_context, int *num)
   Var answer;
 
   int ret = eval_expression(asm_context, answer);
+
+  // An int can hold the signed or the unsigned reading of a 32 bit value;
+  // anything wider would silently lose its upper bits here.
+  if (ret == 0)
+  {
+    const int64_t value = answer.get_int64();
+
+    if (value < INT32_MIN || value > (int64_t)UINT32_MAX)
+    {
+      print_error(asm_context, "Constant doesn't fit in 32 bits");
+      return -1;
+    }
+  }
+
   *num = answer.get_int32();
 
   return ret;
